@@ -222,6 +222,11 @@ def run_property(pid, tier, seed, nproc=None):
     nproc = nproc or int(os.environ.get('PMC_NPROC', str(min(16, os.cpu_count() or 1))))
     budget = float(os.environ.get('PMC_BUDGET_S', '600')) if tier == 'thorough' else float('inf')
     t0 = time.time()
+    rdir = os.path.join(VERIF, 'replays', pid)
+    if os.path.isdir(rdir):
+        for fn in os.listdir(rdir):
+            if fn.endswith('.json'):
+                os.remove(os.path.join(rdir, fn))
     col = Collector(pid)
     levels_done, levels_skipped = [], []
     sample_cases = []
@@ -314,6 +319,11 @@ def finish(pid, tier, seed, mod, col, info):
                 lines.append(f"NONDETERMINISTIC: property={pid} replay={path} did not reproduce in a fresh process")
         lines.append(f"VIOLATION property={pid} replay={path}")
         lines.append(f"  signature={jdump(v['signature'])}")
+    if len(fresh) > 20:
+        lines.append(f"... {len(fresh) - 20} further distinct violation signatures not written as replay files")
+    if os.environ.get('PMC_LIST_SIGS') == '1':
+        for v in fresh:
+            lines.append('SIG ' + jdump(v['signature']))
     for he in [h for h in col.harness_errors if h][:3]:
         lines.append(f"HARNESS-ERROR: property={pid} case={jdump(he['case'])[:400]}\n{he['error']}")
 
